@@ -114,7 +114,7 @@ class Program(object):
                         resolved = value.resolve(self.symbol_table)
                     except (ValueError, ValueTypeError, ZeroDivisionError):
                         continue
-                    if resolved.is_numeric() or resolved.is_address():
+                    if resolved.is_numeric() or resolved.is_address() or resolved.is_address_expression():
                         self.symbol_table[label] = resolved
                         changed = True
             if not changed:
@@ -168,6 +168,8 @@ class Program(object):
         for symbol, value in self.symbol_table.items():
             if value.is_address():
                 self.symbol_table[symbol] = self.statements[value.int].code_pkg.address
+            elif value.is_address_expression():
+                self.symbol_table[symbol] = value.calculate_address_offset(self.statements)
 
         # Find the origin and name of the project
         for statement in self.statements:
